@@ -124,7 +124,7 @@ Proof.
   unfold Pall. rewrite Forall_forall. split.
   - intros H.
     assert (Ho : onehot fb s (decode fb s)).
-    { apply (pcons_onehot fb HF1 HT). exact (H FConsistency (f1_has_consistency fb Facts)). }
+    { apply (pcons_onehot fb HF1). exact (H FConsistency (f1_has_consistency fb Facts)). }
     assert (Hfo : forallb (fun p => factor_ok (code_sem fb) (decode fb s) (fst p) (snd p))
                           (index_list (s_factors (code_sem fb))) = true).
     { apply (factors_sem fb HF1 HT s _ Ho). intros d deps f Hin. exact (H _ Hin). }
@@ -148,7 +148,7 @@ Proof.
     pose proof (constraint_sem s q c Ho Hin) as K.
     destruct c; cbn [Pc]; try exact I; try (apply K; exact (Hcs _ Hin)).
     + unfold Pcross. apply (crossings_sem fb HF1 HT s q _ 0 Ho Hne (f1_crossings fb Facts)). exact Hcr.
-    + exact (onehot_pcons fb HF1 s q Ho).
+    + exact (onehot_pcons fb s q Ho).
     + exact (proj2 (factors_sem fb HF1 HT s q Ho) Hfac _ _ _ Hin).
 Qed.
 
@@ -178,12 +178,15 @@ Qed.
 Lemma cell_impl_local s t tr f :
   agree_upto GZ s t -> tr < T fb -> f < nf fb -> isact fb f = false -> cell_impl fb s tr f = cell_impl fb t tr f.
 Proof.
-  intros A Ht Hf Hn. destruct (implied_facts fb HF1 HT f Hf Hn) as (fd & w & Efd & Ew & Hd & _).
+  intros A Ht Hf Hn. destruct (implied_facts fb HF1 HT f Hf Hn) as (fd & w & Efd & Ew & Hd & _ & _ & W3 & _).
   unfold cell_impl, factor_at. rewrite Efd, Ew.
-  replace (impl_args fb t tr w) with (impl_args fb s tr w); [reflexivity|].
-  unfold impl_args. apply map_ext_in. intros d Hdd.
+  destruct (applies (code_factor fb f fd) tr) eqn:Hap; [|reflexivity].
+  replace (window_args (dec_act fb t) (code_factor fb f fd) (dwin fd w) tr)
+    with (window_args (dec_act fb s) (code_factor fb f fd) (dwin fd w) tr); [reflexivity|].
+  apply (impl_window_ext fb HF1 HT _ _ f fd w tr W3 Hap Ew). intros d t' Hdd Ht'.
   pose proof (proj1 (Forall_forall _ _) Hd d Hdd) as Hda. cbv beta in Hda.
-  now rewrite (cell_act_local s t tr d A Ht Hda).
+  rewrite !(dec_act_cell fb _ t' d ltac:(lia) (f1_act_lt fb HF1 d Hda)).
+  apply (cell_act_local s t t' d A ltac:(lia) Hda).
 Qed.
 
 Lemma onehot_local s t q : agree_upto GZ s t -> onehot fb s q -> onehot fb t q.
